@@ -299,6 +299,12 @@ pub fn value_for(stamp: u64, key_idx: u8, class: u8, cfg: &Cfg) -> Vec<u8> {
         6 => 128,
         7 => 16383,
         8 => 16384,
+        // as the first record of a WAL with a 1-byte key: the record ends 7 resp. 6 bytes before
+        // the end of the first 32 KiB block (7 header + 8 sequence + 1 count + 1 operation + 1 + 1
+        // key + 3 length + value), so the next record starts with a zero-length First fragment
+        // resp. behind a 6-byte trailer
+        9 => 32739,
+        10 => 32740,
         _ => 8,
     };
     if class == 4 {
